@@ -140,6 +140,7 @@ def attrOf (d : PData) (name : String) : PVal → PVal
   | .obj i => match d.getObj i with
     | some o => (o.attrs.lookup name).getD (.err s!"AttributeError:{name}")
     | Option.none => .err "noobj"
+  | .int n => if name == "real" then .int n else .err s!"AttributeError:{name}"     -- (5).real == 5
   | _ => .err s!"AttributeError:{name}"
 
 /-- `sub c base`: is `c` `base` or a descendant of it (fuel = number of classes). -/
@@ -164,6 +165,14 @@ def intAttr (d : PData) (name : String) (v : PVal) : Option Int := (d.attrOf nam
 /-- The fixed repertoire of methods every generated class defines (see harness/surface.py). -/
 def callM (d : PData) (m : String) (args : List PVal) (recv : PVal) : PVal :=
   match m, args with
+  -- methods of plain VALUES (an attribute value used as the receiver of a call): list.count, tuple.count, str.upper
+  | "count", [k] => match recv with
+      | .list xs => .int (xs.filter fun x => PVal.beq x k).length
+      | .tup xs => .int (xs.filter fun x => PVal.beq x k).length
+      | _ => .err "count"
+  | "upper", [] => match recv with
+      | .str t => .str t.toUpper
+      | _ => .err "upper"
   | "gt", [k] => match d.intAttr "a" recv, k.asInt? with      -- def gt(self, k): return self.a > k
       | some a, some k => .bool (a > k) | _, _ => .err "gt"
   | "plus", [k] => match d.intAttr "a" recv, k.asInt? with    -- def plus(self, k): return self.a + k
@@ -182,6 +191,7 @@ def fnP (d : PData) (name : String) (args : List PVal) : PVal :=
       | some r => .bool r | _ => .err "lt"
   | "same_b", [o1, o2] => .bool (PVal.beq (d.attrOf "b" o1) (d.attrOf "b" o2))   -- return o1.b == o2.b
   | "val_a", [o] => d.attrOf "a" o                            -- return o.a   (truthiness of a value)
+  | "val_b", [o] => d.attrOf "b" o                            -- return o.b
   | _, _ => .err s!"fn:{name}"
 
 def indexP (v k : PVal) : PVal :=
